@@ -19,7 +19,7 @@ CLEAN_DEADLINE_S = 200      # C05 clause 3: everything gone within this much aft
 
 
 def gen_plan(rng, opts=None):
-    o = dict(nmax=8, hmax=3, wmax=2, max_out=3, lossy=False, jitter=True, faults=None, gpu=True, fair=False)
+    o = dict(nmax=8, hmax=3, wmax=2, max_out=3, lossy=False, jitter=True, faults=None, gpu=True, fair=False, slow=False)
     o.update(opts or {})
     if o.get("graph"):
         gp = G.gen_graph_plan(rng, o.get("graph_opts"))
@@ -54,7 +54,13 @@ def gen_plan(rng, opts=None):
                 faults.append(dict(kind="kill", proc=f"h{rng.randrange(cluster['hosts'])}.data", after=rng.randint(0, 200)))
             elif k == "kill_shm":
                 faults.append(dict(kind="kill", proc=f"h{rng.randrange(cluster['hosts'])}.shm", after=rng.randint(0, 200)))
-    return dict(job=job, cluster=cluster, net=net, faults=faults)
+    slow = []
+    if o.get("slow") and rng.random() < 0.6:
+        # a slow or stalled node: one host (with all its processes), one worker, one data server, or the controller
+        pool = [f"h{h}" for h in range(cluster["hosts"])] + [f"h{h}.w{w}" for h in range(cluster["hosts"]) for w in range(cluster["wph"])] \
+            + [f"h{h}.data" for h in range(cluster["hosts"])] + ["ctrl"]
+        slow = rng.sample(pool, rng.choice([1, 1, 2]))
+    return dict(job=job, cluster=cluster, net=net, faults=faults, slow=slow)
 
 
 class Mon:
@@ -238,6 +244,9 @@ def run(plan, ch, want_log=False):
     ncfg = dict(lat=(net["lat_lo"], net["lat_hi"]), faultable=wire.faultable, drop_pct=net.get("drop", 0), dup_pct=net.get("dup", 0),
                 max_drops_per_message=net.get("max_consec"), fault_key=wire.fault_key, plan=net.get("plan"))
     fakes.new_world(K, ncfg)
+    if plan.get("slow"):
+        K.slow = tuple(plan["slow"])
+        K.fire("slow_process")
     simtasks.reset()
     mon = Mon(K, plan, job)
     result = {}
@@ -546,6 +555,10 @@ def shrink_candidates(plan):
     for i in range(len(plan.get("faults") or [])):
         c = copy.deepcopy(plan)
         del c["faults"][i]
+        yield c
+    if plan.get("slow"):
+        c = copy.deepcopy(plan)
+        c["slow"] = []
         yield c
     n = plan["net"]
     for key, val in (("drop", 0), ("dup", 0), ("lat_hi", 50_000)):
